@@ -3,6 +3,7 @@ package c08
 import (
 	"fmt"
 	"math/big"
+	"os"
 	"sort"
 	"strings"
 	"sync"
@@ -600,6 +601,124 @@ func TestC08_AuxPow(t *testing.T) {
 			}
 		}
 
+		// --- end to end on the node: a sibling of the tip that carries a KawPoW proof
+		{
+			tip := a.Blocks[len(a.Blocks)-1]
+			if tip.Order == sim.Zone && tip.Zone().PrimeTerminusNumber().Uint64() >= params.KawPowForkBlock {
+				child := tip.Zone()
+				spec := drawSpec(t, "e2e", types.Kawpow, child.Time())
+				sig, err := spec.sign()
+				if err != nil {
+					t.Fatalf("HARNESS: musig2 signing: %v", err)
+				}
+				// sealBlock grinds the donor nonce until the node's engine accepts the seal with zone order
+				sealBlock := func(wo *types.WorkObject) bool {
+					ap := wo.AuxPow()
+					for i := uint64(0); i < 200000; i++ {
+						setDonorNonce(ap, spec.nonce+i)
+						if !sealOK(wo.Hash(), wo.Difficulty()) {
+							continue
+						}
+						hc.VerifPurgeCaches()
+						if _, o, err := hc.CalcOrder(wo); err == nil && o == sim.Zone {
+							return true
+						}
+					}
+					return false
+				}
+				build := func(m *auxMutant) *types.WorkObject {
+					cp := types.CopyWorkObject(child)
+					wh := cp.WorkObjectHeader()
+					if m == nil {
+						wh.SetAuxPow(spec.assemble(wh.SealHash(), sig))
+					} else {
+						ap, tweak, ok := m.make(spec.clone(), sig, wh)
+						if !ok {
+							return nil
+						}
+						wh.SetAuxPow(ap)
+						if tweak != nil {
+							tweak(wh)
+						}
+					}
+					if !sealBlock(cp) {
+						return nil
+					}
+					return cp
+				}
+				offer := func(wo *types.WorkObject) error {
+					zone.Core.Slice().WriteBlock(types.CopyWorkObject(wo))
+					_, err := zone.Core.Slice().Append(types.CopyWorkObject(wo), common.Hash{}, false, nil)
+					return err
+				}
+				valid := build(nil)
+				if valid == nil {
+					t.Fatalf("HARNESS: could not seal the AuxPoW sibling")
+				}
+				// the order of the valid block, asked with nothing else seen before
+				hc.VerifPurgeCaches()
+				ent0, order0, err0 := hc.CalcOrder(valid)
+				if err0 != nil {
+					t.Fatalf("HARNESS: CalcOrder of the sealed sibling: %v", err0)
+				}
+				// same proof attached to a header that declares a lower difficulty: not bound (the coinbase
+				// commits to another seal hash) but it has the same block hash
+				if stats.IsKnown(FpOrderCachePoison) {
+					stats.Excluded(FpOrderCachePoison)
+				} else {
+					fake := types.CopyWorkObject(valid)
+					fake.WorkObjectHeader().SetDifficulty(big.NewInt(2))
+					hc.VerifPurgeCaches()
+					_, orderFake, errFake := hc.CalcOrder(fake)
+					ent1, order1, err1 := hc.CalcOrder(valid)
+					mlog = append(mlog, fmt.Sprintf("e2e: order of the sealed block alone %d; unbound header with the same proof: %d/%v; sealed block afterwards: %d/%v", order0, orderFake, errFake, order1, err1))
+					if os.Getenv("C08_POISON_NODE") != "" {
+						hc.VerifPurgeCaches()
+						e1 := offer(fake)
+						e2 := offer(valid)
+						_, o3, e3 := hc.CalcOrder(valid)
+						fmt.Printf("POISON-NODE: append(fake)=%v append(valid)=%v calcorder(valid)=%d/%v head=%x valid=%x\n", e1, e2, o3, e3, zone.Core.CurrentHeader().Hash().Bytes()[:4], valid.Hash().Bytes()[:4])
+					}
+					if fake.Hash() == valid.Hash() && (err1 != nil || order1 != order0 || ent1.Cmp(ent0) != 0) {
+						if !stats.Violation(t, part, FpOrderCachePoison, fmt.Sprintf("CalcOrder(valid AuxPoW block) = order %d when asked alone, but order %d/%v after CalcOrder was asked about a header with the same AuxPoW (hence the same block hash %x) and difficulty 2, whose seal hash the proof does not commit to (it got order %d/%v)", order0, order1, err1, valid.Hash().Bytes()[:6], orderFake, errFake), dump(map[string]any{"spec": spec.describe(), "valid": describeWoh(valid.WorkObjectHeader())})) {
+							return
+						}
+					}
+					hc.VerifPurgeCaches()
+				}
+				// a few changed proofs, sealed, offered to the node first
+				picks := rapid.SliceOfNDistinct(rapid.IntRange(0, len(muts)-1), 3, 6, rapid.ID[int]).Draw(t, "e2eMutants")
+				sort.Ints(picks)
+				for _, mi := range picks {
+					m := muts[mi]
+					wo := build(&m)
+					if wo == nil {
+						continue
+					}
+					if wo.Hash() == valid.Hash() {
+						hc.VerifPurgeCaches() // same proof, other header: keep the order cache out of this probe
+					}
+					err := offer(wo)
+					mlog = append(mlog, fmt.Sprintf("e2e append %s: %v", m.name, err))
+					if err == nil {
+						stats.Violation(t, part, "C08/auxpow/mutant-appended/"+m.name, fmt.Sprintf("a sealed block whose KawPoW proof has the single change %q was appended", m.name), dump(map[string]any{"spec": spec.describe(), "header": describeWoh(wo.WorkObjectHeader())}))
+						return
+					}
+					rejected["append/Kawpow/"+m.name] = true
+				}
+				hc.VerifPurgeCaches()
+				if err := offer(valid); err != nil {
+					t.Fatalf("HARNESS: the node refuses the sealed block with a valid KawPoW proof: %v", err)
+				}
+				if err := n.SetHead(sim.Zone, valid); err != nil {
+					t.Fatalf("HARNESS: the node does not adopt the block with a valid KawPoW proof: %v", err)
+				}
+				accepted["append/Kawpow"] = true
+			} else {
+				stats.Label(part, "e2e_skipped_tip_not_zone_order")
+			}
+		}
+
 		var al, rl []string
 		for k := range accepted {
 			al = append(al, k)
@@ -612,6 +731,9 @@ func TestC08_AuxPow(t *testing.T) {
 		sort.Strings(al)
 		sort.Strings(rl)
 		stats.Case(part, strings.Join(al, ",")+"|"+strings.Join(rl, ","), len(rl) > 0 && len(al) > 0)
+		if os.Getenv("C08_DEBUG") != "" {
+			fmt.Println(strings.Join(mlog, "\n"))
+		}
 		if stats.WantSample(part) {
 			stats.Sample(part, map[string]any{"accepted": al, "rejected_count": len(rl), "log": tailStr(mlog, 30)})
 		}
